@@ -327,12 +327,142 @@ pub async fn liquidation(w: &mut World, m: &mut Mon, r: &mut R, lev: &Lev, lq: u
     if let Some(mx) = max {
         // the neighbour above the boundary has been simulated (rejected); commit one amount
         let amt = pick(r, &[mx, mx / 2 + 1, mx / 10 + 1, 1]);
-        let i = w.ix_liquidate(lq, le, ca, db, lkp, amt);
-        let _ = w.exec(m, &[i], &[&lk]).await;
+        let _ = exec_liquidation_judged(w, m, lq, le, ca, db, &lk, amt).await;
         if r.gen_bool(0.5) {
-            let i = w.ix_liquidate(lq, le, ca, db, lkp, mx / 3 + 1);
-            let _ = w.exec(m, &[i], &[&lk]).await;
+            let _ = exec_liquidation_judged(w, m, lq, le, ca, db, &lk, mx / 3 + 1).await;
         }
+    }
+}
+
+/// The program's own maintenance health of an account (asset value minus liability value), as a
+/// simulated health pulse writes it into the account's health cache; None when the pulse fails or
+/// reports an engine / price problem.
+pub async fn pulsed_maint_health(w: &mut World, m: &mut Mon, a: usize) -> Option<Rat> {
+    let key = w.accts[a].key;
+    let i = ix::pulse_health(key, w.risk_metas(a, None, None));
+    let o = w.probe(m, &[i], &[]).await;
+    if !o.ok() {
+        return None;
+    }
+    let ev = o.events.iter().rev().find(|e| e.program == ix::MFI && crate::kinds::Kind::of(&e.data) == crate::kinds::Kind::PulseHealth)?;
+    let snap = ev.post.iter().find(|s| s.key == key)?;
+    let acc = acct_of(&snap.data)?;
+    let c = &acc.health_cache;
+    if c.flags & 0b110 != 0b110 {
+        return None;
+    }
+    Some(fx(&c.asset_value_maint.value) - fx(&c.liability_value_maint.value))
+}
+
+/// A committed classic liquidation bracketed by two simulated health pulses of the liquidatee at
+/// the same prices, time and share values (both banks are accrued first): C05 wants the account
+/// strictly healthier afterwards, and here "healthier" is read off the program's own valuation, so
+/// the comparison is exact (the reference valuation of the monitor carries an error band and cannot
+/// tell "unchanged" from "better by less than the band").
+pub async fn exec_liquidation_judged(w: &mut World, m: &mut Mon, lq: usize, le: usize, ca: usize, db: usize, lk: &Keypair, amt: u64) -> crate::chain::TxOut {
+    for b in [ca, db] {
+        if w.banks[b].venue.is_none() {
+            let i = w.ix_accrue(b);
+            let _ = w.exec(m, &[i], &[]).await;
+        }
+    }
+    let h0 = pulsed_maint_health(w, m, le).await;
+    let i = w.ix_liquidate(lq, le, ca, db, lk.pubkey(), amt);
+    let o = w.exec(m, &[i], &[lk]).await;
+    if o.ok() {
+        let h1 = pulsed_maint_health(w, m, le).await;
+        if let (Some(h0), Some(h1)) = (h0, h1) {
+            m.r.eval();
+            m.r.count("C05.program_health_before_after_pairs");
+            if h1 <= h0 {
+                m.r.violate("C05", "C05/Liquidate/maintenance-health-not-strictly-better-by-the-program's-own-valuation", format!("liquidatee {}: seized {} of bank {}: health {} -> {}", w.accts[le].key, amt, w.banks[ca].key, show(&h0), show(&h1)));
+            }
+        }
+    }
+    o
+}
+
+/// Liquidation on the flat boundary: a collateral whose maintenance weight is exactly the share of
+/// the seized value the liquidatee is relieved of (1 - liquidator fee - insurance fee) times the
+/// debt's maintenance liability weight, both prices without confidence, no interest. Seizing
+/// collateral then leaves the maintenance health exactly where it was (or moves it by one grid step
+/// either way, depending on the seized amount and on which side of the boundary the weight lies):
+/// such a liquidation takes five percent of the seized value from the account and does not make
+/// it healthier, so it has to be refused.
+pub async fn flat_liquidation(w: &mut World, m: &mut Mon, r: &mut R, g: usize, lq: usize) {
+    use marginfi_type_crate::constants::{LIQUIDATION_INSURANCE_FEE, LIQUIDATION_LIQUIDATOR_FEE};
+    let dec_c = pick(r, &[9u8, 6, 0]);
+    let mc = w.add_mint(dec_c, TokKind::Classic).await;
+    let md = w.add_mint(6, TokKind::Classic).await;
+    let relief = fixed::types::I80F48::ONE - LIQUIDATION_INSURANCE_FEE - LIQUIDATION_LIQUIDATOR_FEE;
+    let lw = pick(r, &[1.0f64, 1.0, 1.25]);
+    let target = relief * fixed::types::I80F48::from_num(lw);
+    let off = pick(r, &[0i128, 0, 0, 1, -1]);
+    let no_fees = |c: &mut BankConfigCompact| {
+        c.interest_rate_config.protocol_fixed_fee_apr = wi(0.0);
+        c.interest_rate_config.protocol_ir_fee = wi(0.0);
+        c.interest_rate_config.insurance_fee_fixed_apr = wi(0.0);
+        c.interest_rate_config.insurance_ir_fee = wi(0.0);
+        c.interest_rate_config.protocol_origination_fee = wi(0.0);
+    };
+    let mut cc = default_bank_cfg();
+    cc.asset_weight_init = wi(0.5);
+    cc.asset_weight_maint = wbitsv(target.to_bits() + off);
+    no_fees(&mut cc);
+    let mut dc = default_bank_cfg();
+    dc.liability_weight_init = wi(lw);
+    dc.liability_weight_maint = wi(lw);
+    no_fees(&mut dc);
+    let ca = match w.add_bank_fixed(g, mc, cc, wi(2.0)).await {
+        Ok(b) => b,
+        Err(_) => {
+            m.r.count("scen.flat_liquidation_setup_failed");
+            return;
+        }
+    };
+    let db = match w.add_bank_fixed(g, md, dc, wi(1.0)).await {
+        Ok(b) => b,
+        Err(_) => {
+            m.r.count("scen.flat_liquidation_setup_failed");
+            return;
+        }
+    };
+    w.create_ata(w.fee_wallet.pubkey(), mc).await;
+    w.create_ata(w.fee_wallet.pubkey(), md).await;
+    let unit_c = 10u64.pow(dec_c as u32);
+    let lk = w.auth_of(lq);
+    w.mint_to(md, w.ta_of(lq, db), 1_000_000_000_000).await;
+    let i = w.ix_deposit(lq, db, lk.pubkey(), w.ta_of(lq, db), 100_000_000_000, None);
+    if !w.exec(m, &[i], &[&lk]).await.ok() {
+        m.r.count("scen.flat_liquidation_setup_failed");
+        return;
+    }
+    let u = w.add_user(0).await;
+    let le = w.add_account(g, u).await;
+    let auth = w.auth_of(le);
+    w.mint_to(mc, w.ta_of(le, ca), 500 * unit_c).await;
+    let i = w.ix_deposit(le, ca, auth.pubkey(), w.ta_of(le, ca), 500 * unit_c, None);
+    if !w.exec(m, &[i], &[&auth]).await.ok() {
+        m.r.count("scen.flat_liquidation_setup_failed");
+        return;
+    }
+    let want = (400.0 / lw) as u64 * 1_000_000;
+    let i = w.ix_borrow(le, db, auth.pubkey(), w.ta_of(le, db), want);
+    if !w.exec(m, &[i], &[&auth]).await.ok() {
+        m.r.count("scen.flat_liquidation_setup_failed");
+        return;
+    }
+    // the collateral falls to half a dollar: 500 x 0.5 x ~0.95 against a 400-dollar debt
+    let admin = clone_kp(&w.groups[g].admin);
+    let i = ix::set_fixed_price(w.groups[g].key, admin.pubkey(), w.banks[ca].key, wi(0.5));
+    if !w.exec(m, &[i], &[&admin]).await.ok() {
+        m.r.count("scen.flat_liquidation_setup_failed");
+        return;
+    }
+    m.r.count("scen.flat_liquidation_rounds");
+    for seize in [64u64, 50, 32, 10, 3, 1] {
+        let o = exec_liquidation_judged(w, m, lq, le, ca, db, &lk, seize * unit_c).await;
+        m.r.count(&format!("scen.flat_liquidation/{}", if o.ok() { "accepted".to_string() } else { o.custom_code().map(|c| c.to_string()).unwrap_or_else(|| "other".into()) }));
     }
 }
 
